@@ -2,10 +2,18 @@ package main
 
 import (
 	"encoding/json"
+	"fmt"
+	"reflect"
+	"strings"
 	"time"
+
+	"github.com/ajitpratap0/GoSQLX/pkg/gosqlx"
+	"github.com/ajitpratap0/GoSQLX/pkg/sql/ast"
 
 	"verif/internal/core"
 	"verif/internal/gram"
+	"verif/internal/ops"
+	"verif/internal/project"
 )
 
 type stmtCase struct {
@@ -26,6 +34,10 @@ func init() {
 			if err := json.Unmarshal([]byte(line), &c); err != nil {
 				core.Fatalf("bad statement case: %v", err)
 			}
+			if c.Name == "script" {
+				checkScript(run, &c, i)
+				continue
+			}
 			want := gram.EmptyAsNil(gram.Norm(c.Tree)).(map[string]any)
 			lays := []int{i % 4}
 			if tier == "thorough" || c.Name != "select" {
@@ -39,6 +51,39 @@ func init() {
 			if i%3000 == 7 {
 				run.Sample(map[string]any{"form": c.Name, "text": gram.Layouts(c.Toks, 0)})
 			}
+		}
+	}
+}
+
+// checkScript: a two-statement script parses to the two statements' own trees, in order.
+func checkScript(run *core.Run, c *stmtCase, i int) {
+	wants, _ := gram.EmptyAsNil(gram.Norm(c.Tree["Statements"])).([]any)
+	text := gram.Layouts(c.Toks, i%4)
+	run.Nontrivial(text)
+	tree, err := gosqlx.Parse(text)
+	run.Eval(1)
+	cse := map[string]any{"text": text, "slot": "script"}
+	if err != nil {
+		run.Violate(core.Violation{Sig: "script-rejected|" + ops.Err(err).Code, Clause: "a statement of the documented surface is never rejected", Case: cse, Observe: firstN(err.Error(), 200)})
+		return
+	}
+	defer ast.ReleaseAST(tree)
+	if len(tree.Statements) != len(wants) {
+		run.Violate(core.Violation{Sig: "script-statement-count", Clause: "the returned tree is exactly the one the grammar prescribes", Case: cse, Observe: len(tree.Statements), Expect: len(wants)})
+		return
+	}
+	for k, st := range tree.Statements {
+		got := gram.FoldWords(gram.Norm(project.Value(st)))
+		want := gram.FoldWords(wants[k])
+		if !reflect.DeepEqual(got, want) {
+			d := project.Equal(got, want)
+			path := d
+			if j := strings.Index(d, ":"); j > 0 {
+				path = d[:j]
+			}
+			parts := strings.Split(path, ".")
+			run.Violate(core.Violation{Sig: fmt.Sprintf("script-tree-differs|statement-%d|%s", k+1, parts[len(parts)-1]), Clause: "every clause, modifier, alias, name and literal written appears with its written value and nothing unwritten appears",
+				Case: cse, Observe: map[string]any{"diff": d}})
 		}
 	}
 }
